@@ -339,6 +339,25 @@ static void iterator_advance(Iterator *self) {
   }
 }
 
+// The byte span of the subtree that `iterator_compare` looks at. That subtree can
+// begin before the current position (after ascending), and when the iterator is in
+// a node's padding it is the enclosing visible node, not the padding.
+static void iterator_compared_span(
+  const Iterator *self,
+  uint32_t *start_byte,
+  uint32_t *end_byte
+) {
+  Subtree tree = NULL_SUBTREE;
+  TSSymbol alias_symbol = 0;
+  uint32_t tree_start_byte = 0;
+  iterator_get_visible_state(self, &tree, &alias_symbol, &tree_start_byte);
+  if (tree.ptr) {
+    uint32_t tree_end_byte = tree_start_byte + ts_subtree_total_bytes(tree);
+    if (tree_start_byte < *start_byte) *start_byte = tree_start_byte;
+    if (tree_end_byte > *end_byte) *end_byte = tree_end_byte;
+  }
+}
+
 typedef enum {
   IteratorDiffers,
   IteratorMayDiffer,
@@ -449,13 +468,18 @@ unsigned ts_subtree_get_changed_ranges(
     // Even if the two subtrees appear to be identical, they could differ
     // internally if they contain a range of text that was previously
     // excluded from the parse, and is now included, or vice-versa.
-    if (comparison == IteratorMatches && ts_range_array_intersects(
-      included_range_differences,
-      included_range_difference_index,
-      position.bytes,
-      iterator_end_position(&old_iter).bytes
-    )) {
-      comparison = IteratorMayDiffer;
+    if (comparison == IteratorMatches && included_range_differences->size > 0) {
+      uint32_t span_start_byte = position.bytes;
+      uint32_t span_end_byte = iterator_end_position(&old_iter).bytes;
+      iterator_compared_span(&old_iter, &span_start_byte, &span_end_byte);
+      if (ts_range_array_intersects(
+        included_range_differences,
+        span_start_byte < position.bytes ? 0 : included_range_difference_index,
+        span_start_byte,
+        span_end_byte
+      )) {
+        comparison = IteratorMayDiffer;
+      }
     }
 
     bool is_changed = false;
